@@ -300,6 +300,7 @@ def explore(ctx):
                        "file-name override asserted only for single-table keywords (for c_ij keywords one name cannot serve several components)"]
     cases = [{"grid": g, "ncomp": n, "base": b} for g in GRIDS for n in SYSTEMS for b in ("tp", "tv")]
     res = ctx.run(MOD, "run_case", cases, part="writer", chunksize=1)
+    ctx.run_under(MOD, "run_case", cases[:2], ("-O",))
     import itertools
     seqs = [list(sq) for L in ((1, 2) if ctx.quick else (1, 2, 3)) for sq in itertools.product(SEQ_ALPHABET, repeat=L)]
     both = [{"seq": sq, "base": b, "both_bases": True} for sq in seqs if len(sq) <= 2 and not any((r if isinstance(r, str) else r["keyword"]) in ("vs", "v_s") and False for r in sq)
